@@ -30,6 +30,8 @@ type c08Step struct {
 	Start  int    `json:"start,omitempty"`
 	End    int    `json:"end,omitempty"`
 	Limit  int    `json:"limit,omitempty"`
+	// Node: 1 = the read is served by a second node over the same store (a follower that adopted the leader's revision)
+	Node int `json:"node,omitempty"`
 }
 
 type c08Case struct {
@@ -59,6 +61,7 @@ func genC08(t *rapid.T) interface{} {
 				RevSel: rapid.IntRange(-2, 40).Draw(t, "revsel"),
 				Start:  DrawIntn(t, nb, "start"), End: DrawIntn(t, nb, "end"),
 				Limit: rapid.IntRange(0, 3).Draw(t, "limit"),
+				Node:  rapid.SampledFrom([]int{0, 0, 1}).Draw(t, "node"),
 			})
 		}
 	}
@@ -131,10 +134,15 @@ func runC08(ci interface{}, st *CaseStats) error {
 	defer env.Close()
 	st.Label("engine:" + c.Engine)
 	bounds := boundPool(c.Keys)
+	// a second node over the same store: it serves reads after adopting the first node's read revision
+	second := NewTestBackend(env.KV, BackendOpts{Etcd: true, Identity: "node-1"})
+	defer StopBackend(second)
+	first := env.B
 	var floor, lastRecord uint64
 	loweredAttempt, readBetween, refused := false, false, 0
 	var lowReqAfterHigh uint64
 	for i, s := range c.Steps {
+		env.B = first
 		switch {
 		case s.W != nil:
 			if _, err := env.DoWrite(*s.W); err != nil {
@@ -207,6 +215,13 @@ func runC08(ci interface{}, st *CaseStats) error {
 			if bytes.Equal(a, b) || bytes.Equal(b, []byte{0}) || bytes.Equal(a, []byte{0}) {
 				continue
 			}
+			if s.Node == 1 {
+				second.SetCurrentRevision(cur)
+				env.B = second
+				st.Label("read-on-second-node")
+			}
+			restore := func() { env.B = first }
+			_ = restore
 			below := rev != 0 && rev < floor
 			if below && loweredAttempt && rev >= lowReqAfterHigh {
 				readBetween = true
@@ -263,6 +278,7 @@ func runC08(ci interface{}, st *CaseStats) error {
 			}
 		}
 	}
+	env.B = first
 	if refused > 0 {
 		st.Label("read-refused")
 	}
@@ -306,7 +322,7 @@ func probeC08Lower() (bool, string) {
 
 var specC08 = &Spec{
 	ID:   "C08",
-	Rule: "case = 6..36 steps mixing writes, compaction requests (current, 0, above current, any revision between first and current — hence increasing, repeated and decreasing sequences) and range / streamed-range / count reads at every revision; floor = max effective revision of accepted compactions (response header); non-trivial = a compaction whose effective revision is below the floor, followed by a range read at a revision between that request and the floor; distinct = SHA-1 of the case",
+	Rule: "case = 6..36 steps mixing writes, compaction requests (current, 0, above current, any revision between first and current — hence increasing, repeated and decreasing sequences) and range / streamed-range / count reads at every revision, a third of them served by a second node over the same store that adopted the first node's revision; floor = max effective revision of accepted compactions (response header); non-trivial = a compaction whose effective revision is below the floor, followed by a range read at a revision between that request and the floor; distinct = SHA-1 of the case",
 	Gen:  genC08,
 	New:  func() interface{} { return &c08Case{} },
 	Run:  runC08,
@@ -318,3 +334,133 @@ var specC08 = &Spec{
 }
 
 func TestC08(t *testing.T) { RunProperty(t, specC08) }
+
+// ---------------------------------------------------------------------------------------------------------------
+// concurrent compactions under the scheduler
+
+type c08ConcCase struct {
+	Engine string
+	Keys   []string
+	Hist   []WOp
+	CSels  []int // one compaction request per compactor client (selects a revision between first and current)
+	Sched  []int
+}
+
+func genC08Conc(t *rapid.T) interface{} {
+	c := &c08ConcCase{Engine: EnvStr("VERIF_ENGINE", EngMem)}
+	c.Keys = genKeyPool(t, 2, 4)
+	n := rapid.IntRange(6, 16).Draw(t, "nhist")
+	for i := 0; i < n; i++ {
+		op := genWOp(t, len(c.Keys))
+		if op.Kind != "create" && DrawBool(t, 70, "ok") {
+			op.Exp = "ok"
+		}
+		c.Hist = append(c.Hist, *op)
+	}
+	nc := rapid.IntRange(2, 3).Draw(t, "ncompactors")
+	for i := 0; i < nc; i++ {
+		c.CSels = append(c.CSels, rapid.IntRange(0, 40).Draw(t, "csel"))
+	}
+	c.Sched = DrawChoices(t, 60, "sched")
+	return c
+}
+
+func runC08Conc(ci interface{}, st *CaseStats) error {
+	c := ci.(*c08ConcCase)
+	keys := make([]string, len(c.Keys))
+	for i, k := range c.Keys {
+		keys[i] = FullKey(k)
+	}
+	env, err := NewSeqEnv(SeqOpts{Engine: c.Engine, Keys: keys, UseShim: true, Backend: BackendOpts{Etcd: true}})
+	if err != nil {
+		return Inconclusivef("engine: %v", err)
+	}
+	defer env.Close()
+	st.Label("engine:" + c.Engine)
+	for i, op := range c.Hist {
+		if _, err := env.DoWrite(op); err != nil {
+			return fmt.Errorf("history step %d: %v", i, err)
+		}
+	}
+	if err := env.Settle(); err != nil {
+		return err
+	}
+	cur := env.B.GetCurrentRevision()
+	if cur <= env.Init+1 {
+		return nil
+	}
+	reqs := make([]uint64, len(c.CSels))
+	effs := make([]uint64, len(c.CSels))
+	cerrs := make([]error, len(c.CSels))
+	sched := NewSched()
+	env.Shim.Gate = sched.GateFunc
+	programs := make([]func(ctx context.Context), len(c.CSels))
+	for i, sel := range c.CSels {
+		i := i
+		reqs[i] = env.Init + 1 + uint64(sel)%(cur-env.Init)
+		programs[i] = func(ctx context.Context) {
+			resp, err := env.B.Compact(ctx, reqs[i])
+			cerrs[i] = err
+			if resp != nil {
+				effs[i] = resp.Header.Revision
+			}
+		}
+	}
+	err = sched.Run(programs, c.Sched)
+	env.Shim.Gate = nil
+	if err != nil {
+		return Inconclusivef("%v", err)
+	}
+	var floor, lowest uint64
+	lowest = ^uint64(0)
+	for i := range effs {
+		if cerrs[i] != nil {
+			// a compaction that lost the race for the record may report an error; it then accepted nothing
+			st.Label("compaction-returned-error")
+			continue
+		}
+		if effs[i] > floor {
+			floor = effs[i]
+		}
+		if effs[i] < lowest {
+			lowest = effs[i]
+		}
+	}
+	rec, ok, err := storedFloor(env.KV)
+	if err != nil {
+		return err
+	}
+	if floor > 0 && (!ok || rec < floor) {
+		return fmt.Errorf("compactions at %v were accepted (effective %v) under schedule %v, but the stored record is %d (present=%v): a concurrent older compaction lowered the floor", reqs, effs, sched.Trace, rec, ok)
+	}
+	a, b := []byte(Prefix+"/"), backend.PrefixEnd([]byte(Prefix+"/"))
+	between := false
+	for r := env.Init + 1; r <= cur; r++ {
+		if r < floor {
+			resp, err := env.B.List(env.Ctx, &proto.RangeRequest{Key: a, End: b, Revision: r})
+			if err == nil {
+				return fmt.Errorf("compactions at %v accepted (effective %v, schedule %v): List at revision %d below the floor %d returned %d kvs instead of an error", reqs, effs, sched.Trace, r, floor, len(resp.Kvs))
+			}
+			if r >= lowest {
+				between = true
+			}
+		} else if _, err := env.CheckList(a, b, r, 0); err != nil {
+			return fmt.Errorf("after concurrent compactions at %v (floor %d): %v", reqs, floor, err)
+		}
+	}
+	if between && len(sched.Trace) > len(c.CSels)+2 {
+		st.Nontrivial()
+	}
+	return nil
+}
+
+var specC08Conc = &Spec{
+	ID:      "C08",
+	Rule:    "concurrent mode: a history of 6..16 writes, then 2..3 compaction requests at generated revisions issued by concurrent clients whose storage calls (record read, record write, scan set-up) are interleaved by the scheduler; afterwards List at every revision: below the highest accepted effective revision it must be refused, at or above it must equal the model; the stored record must be at least that revision. Non-trivial = the requests named different revisions and some revision lies between them; distinct = SHA-1 of the case",
+	Gen:     genC08Conc,
+	New:     func() interface{} { return &c08ConcCase{} },
+	Run:     runC08Conc,
+	Engines: []string{EngMem, EngTiKV},
+}
+
+func TestC08Conc(t *testing.T) { RunProperty(t, specC08Conc) }
